@@ -99,6 +99,9 @@ META["rule"] += (
 META["rule"] += (
     " " + 'Added after the third round: node weights after switching the type back, after hand-set weights followed by the same type, and on ClimateNetwork objects of the same grid (constructor, set_threshold, set_link_density).')
 
+META["rule"] += (
+    " " + 'Added after the sixth round: the distance-weighted measures are evaluated before distance() is read in half of the cases.')
+
 STYLES = ["generic", "pole", "antimeridian", "coincident", "antipodal",
           "regular", "mixed"]
 
@@ -873,7 +876,10 @@ def check_network(ctx, GeoGrid, GeoNetwork, lat, lon, A, directed, wtype,
                               {**case, "n_bins": nb, "lib": res[0],
                                "want": fr, "lbb": res[2], "want_lbb": lb},
                               cid)
-    # SpatialNetwork.distance() is the grid distance
+    # SpatialNetwork.distance() is the grid distance (also after the
+    # distance-weighted measures have been evaluated)
+    if ctx.rng("dw", cid).random() < 0.5:
+        _distance_weighted_queries(ctx, net)
     ok, Dn = ctx.call(net.distance)
     ctx.evals()
     if not ok or not np.array_equal(np.asarray(Dn, dtype=np.float64), D):
@@ -883,6 +889,23 @@ def check_network(ctx, GeoGrid, GeoNetwork, lat, lon, A, directed, wtype,
         ctx.sample({"kind": "network", "lat": la32, "A": A,
                     "directed": directed, "weights": net.node_weights,
                     "cos_lat": cl})
+
+
+def _distance_weighted_queries(ctx, net):
+    """the measures that use the distances as link weights (they store them
+    as a link attribute of the network); asked before distance() is read"""
+    import warnings
+    with warnings.catch_warnings():
+        warnings.simplefilter("ignore")
+        for m in ("average_distance_weighted_path_length",
+                  "distance_weighted_closeness",
+                  "local_distance_weighted_vulnerability"):
+            f = getattr(net, m, None)
+            if callable(f):
+                ctx.call(f)
+                ctx.evals()
+    ctx.count("distance_read_after_weighted_measures")
+
 
 
 def check_spatial_network(ctx, Grid, SpatialNetwork, X, A, directed, cid):
@@ -951,6 +974,8 @@ def check_spatial_network(ctx, Grid, SpatialNetwork, X, A, directed, cid):
                                "lib": None if not ok else res[0],
                                "want": fr,
                                "exc": None if ok else repr(res)}, cid)
+    if ctx.rng("dw", cid).random() < 0.5:
+        _distance_weighted_queries(ctx, net)
     ok, Dn = ctx.call(net.distance)
     ctx.evals()
     if not ok or not np.array_equal(np.asarray(Dn, dtype=np.float64), D):
